@@ -53,11 +53,53 @@ func edgeTrace(c *an.Ctx) *edgeTraceResult {
 		return res
 	}
 	res.add = add
-	for _, l := range an.Loops(add) {
-		op := l.RangeOperand()
-		if op != nil && an.AccessPath(an.ContentOf(op)).LastField() == "DependsOn" {
-			res.loop = l
+	// the loop over the dependencies: in AddStage, or in a helper of the package that AddStage hands its stage to
+	// on every path and whose error it returns
+	lf := add
+	findLoop := func(f *ssa.Function) *an.Loop {
+		for _, l := range an.Loops(f) {
+			op := l.RangeOperand()
+			if op != nil && an.AccessPath(an.ContentOf(op)).LastField() == "DependsOn" {
+				return l
+			}
 		}
+		return nil
+	}
+	res.loop = findLoop(add)
+	if res.loop == nil {
+		var addStage *ssa.Parameter
+		for _, prm := range add.Params {
+			if an.TypeIs(prm.Type(), "pkg/scheduler", "Stage") {
+				addStage = prm
+			}
+		}
+		an.EachInstr(add, func(in ssa.Instruction) {
+			call, ok := in.(*ssa.Call)
+			if !ok || res.loop != nil {
+				return
+			}
+			h := call.Call.StaticCallee()
+			if h == nil || h.Blocks == nil || an.Outer(h).Pkg != add.Pkg || findLoop(h) == nil {
+				return
+			}
+			// handed AddStage's own stage, on every path, and the helper's error is AddStage's
+			passes := false
+			for _, a := range call.Call.Args {
+				if addStage != nil && an.SameValue(a, addStage) {
+					passes = true
+				}
+			}
+			isCall := func(x ssa.Instruction) bool { return x == ssa.Instruction(call) }
+			always, _ := an.OnAllPathsToExit(add.Blocks[0].Instrs[0], isCall, nil)
+			if add.Blocks[0].Instrs[0] == ssa.Instruction(call) {
+				always = true
+			}
+			fate := p.ErrFate(call, noReturn)
+			if passes && always && (fate.Kind == "propagated" || fate.Kind == "converted") {
+				lf = h
+				res.loop = findLoop(h)
+			}
+		})
 	}
 	if res.loop == nil {
 		res.und = "AddStage does not range over stage.DependsOn"
@@ -66,7 +108,7 @@ func edgeTrace(c *an.Ctx) *edgeTraceResult {
 	res.detector = cycleDetector(p)
 	_, elems := res.loop.RangeKeyValue()
 	var stageParam *ssa.Parameter
-	for _, prm := range add.Params {
+	for _, prm := range lf.Params {
 		if an.TypeIs(prm.Type(), "pkg/scheduler", "Stage") {
 			stageParam = prm
 		}
@@ -87,7 +129,7 @@ func edgeTrace(c *an.Ctx) *edgeTraceResult {
 	run := func(detectorFails bool) []an.Outcome {
 		ex := &an.Explorer{P: p, NoReturn: noReturn, MaxDepth: 3,
 			Inline: func(f *ssa.Function) bool {
-				return an.Outer(f).Pkg == add.Pkg && f != add && f != res.detector
+				return an.Outer(f).Pkg == add.Pkg && f != add && f != lf && f != res.detector
 			}}
 		res.loop.Bound(ex)
 		ex.AtomSt = func(v ssa.Value, st *an.State) (an.AVal, bool) {
@@ -153,7 +195,7 @@ func edgeTrace(c *an.Ctx) *edgeTraceResult {
 						}
 						inIteration := func(in ssa.Instruction) bool {
 							// allocated during this iteration: inside the loop, or in a helper inlined from it
-							return in.Parent() != add || res.loop.Blocks[in.Block()]
+							return in.Parent() != lf || res.loop.Blocks[in.Block()]
 						}
 						if _, isMap := a.Type().Underlying().(*types.Map); isMap {
 							marks = "shared"
@@ -210,7 +252,7 @@ func edgeTrace(c *an.Ctx) *edgeTraceResult {
 			}
 			return ""
 		}
-		return ex.Run(add, res.loop.BodyEntry(), res.loop.Header, nil)
+		return ex.Run(lf, res.loop.BodyEntry(), res.loop.Header, nil)
 	}
 	for _, o := range run(false) {
 		if o.End == "stop" && o.StopBlock == res.loop.Header {
